@@ -387,6 +387,10 @@ class SqlImpl(TableImpl):
                 # user only 0-ary functions after the subquery, e.g. `count`.
                 needed_cols[query.select[0]] = 1
 
+            # The grouping columns are used by a later `summarize` / window function even if no expression references them.
+            for col in query.partition_by:
+                needed_cols.setdefault(col._uuid, 1)
+
             # We only want to select those columns that (1) the user uses in some
             # expression later or (2) are present in the final selection.
 
